@@ -32,6 +32,20 @@ invariant monitors in the ordered collection; cursor / rotation harnesses with a
 ready live source was polled" (C11); a C12 label on "slot queued although nobody invoked its waker" in the budget harness;
 62 idle queued children (C13: with a self-waking child the notify hides a missing budget wake); observer checks on the
 unbounded `FuturesOrdered` (C17); a Layer-W shape with redundant wakes by value of an already queued slot (C03).
+
+Rounds 5 and 6 (18 further changes, 53 in all). For six of them the sub-agent's report made it plain, from the bounds of the
+harnesses, that the quick tier as it stood would not see the change, so the checks were extended *before* the first evaluation
+(their "now" cell therefore shows the extended check; there is no earlier run to show):
+`c04_orderwrapper_signed_cmp` needs two parked outputs whose positions straddle the sign bit -> `fob_poll_c1_p2` (two parked
+outputs, symbolic 64-bit counter) plus the monitor "Pending although the front output is parked";
+`c15_fu_is_empty_last_group` -> `fu_cur_12_c0` (its poll step compares `is_empty()` with the ghost count) added to C15's quick list;
+`c05_mb_finished_budget_requeues` needs five sources ending in one call -> `mb_end_many_6` (six queued sources, solver picks the
+subset that ends); `c02_fub_empty_check_after_drain` needs more than 61 stale queue entries on an empty collection ->
+`fub_stale_many` (capacity 62, empty, 62 stale entries); `c18_mu_swap_remove_group` needs three groups -> `mu_rot_124_c0/c1`;
+adapters had no C14 monitor -> "adapter woke its task although no child waker was invoked" in `ad_*` (no seeded change needed it
+in the end: `c14_fu_wakes_after_group_retired` is caught in `FuturesUnordered` itself). `c11_mu_push_drains_older_groups` was
+first INCONCLUSIVE (exit 2: `mu_push_12` ran out of its 8 GB cap on the changed code; an inconclusive run is never reported
+as a pass); with a 24 GB cap the violation is found and replayed. The remaining eleven were caught by the checks as they stood.
 """
 s = open(os.path.join(V, "DESIGN.md")).read()
 a = s.index("## 9. Seeded changes")
